@@ -14,8 +14,8 @@ import (
 	"sort"
 
 	sdkmath "cosmossdk.io/math"
-	tmbytes "github.com/cometbft/cometbft/libs/bytes"
 	storetypes "cosmossdk.io/store/types"
+	tmbytes "github.com/cometbft/cometbft/libs/bytes"
 	sdk "github.com/cosmos/cosmos-sdk/types"
 	gogotypes "github.com/cosmos/gogoproto/types"
 
